@@ -2,6 +2,7 @@ import Driver.Sexp
 import Pcore.Model.Object
 import Pcore.Model.ObjectSchema
 import Pcore.Model.ObjectInitHash
+import Pcore.Model.ObjectParams
 import Pcore.Generated.ObjectSchema
 /-! Driver op for C17:  `obj (D0 D1 …) (A0 A1 …)`  (syntax in harness/c17/c17.go). -/
 namespace C17
@@ -102,7 +103,15 @@ def constOf : Sexp → Option (String × Val)
     | _ => pure (k', v')
   | _ => none
 
-def defOf5 (i : Nat) (p as q e s : Sexp) (cs : List Sexp) : Option Def :=
+/-- a `type_parameters` entry -/
+def paramOf : Sexp → Option (String × Ty)
+  | .list [k, t] => do
+    let k' ← nameOf k
+    let t' ← tyOf t
+    pure (k', t')
+  | _ => none
+
+def defOf5 (i : Nat) (p as q e s : Sexp) (cs ps : List Sexp) : Option Def :=
   match as with
   | .list as => do
     let parent ← optOf Sexp.nat? p
@@ -116,13 +125,17 @@ def defOf5 (i : Nat) (p as q e s : Sexp) (cs : List Sexp) : Option Def :=
     let serialization ← serOf s
     let constants ← cs.mapM constOf
     if repeats (constants.map (·.1)) then none
+    let params ← ps.mapM paramOf
+    if repeats (params.map (·.1)) then none
     pure { parent := parent, attrs := attrs, equality := equality, includeType := includeType,
-           serialization := serialization, constants := constants }
+           serialization := serialization, constants := constants, params := params }
   | _ => none
 
 def defOf (i : Nat) : Sexp → Option Def
-  | .list [p, as, q, e, s] => defOf5 i p as q e s []
-  | .list [p, as, q, e, s, .list (.atom "k" :: cs)] => defOf5 i p as q e s cs
+  | .list [p, as, q, e, s] => defOf5 i p as q e s [] []
+  | .list [p, as, q, e, s, .list (.atom "k" :: cs)] => defOf5 i p as q e s cs []
+  | .list [p, as, q, e, s, .list (.atom "p" :: ps)] => defOf5 i p as q e s [] ps
+  | .list [p, as, q, e, s, .list (.atom "k" :: cs), .list (.atom "p" :: ps)] => defOf5 i p as q e s cs ps
   | _ => none
 
 def defsOf : Nat → List Sexp → Option (List Def)
@@ -221,7 +234,7 @@ def resB : Except Code Bool → String
   | .ok b => boolStr b
   | .error c => c.toString
 
-def runActs (env : List OType) : List (Option Obj) → List Action → List String
+def runActs (env : List OType) : List (Option PObj) → List Action → List String
   | _, [] => []
   | objs, a :: as =>
     match a with
@@ -229,35 +242,35 @@ def runActs (env : List OType) : List (Option Obj) → List Action → List Stri
       match env[t]? with
       | none => "notype" :: runActs env (objs ++ [none]) as
       | some ty =>
-        match newPos ty vs with
+        match newPosX ty vs with
         | .ok o => "obj" :: runActs env (objs ++ [some o]) as
         | .error c => c.toString :: runActs env (objs ++ [none]) as
     | .newnamed t es =>
       match env[t]? with
       | none => "notype" :: runActs env (objs ++ [none]) as
       | some ty =>
-        match newNamed ty es (.hash (hashStr (sortEntries es))) with
+        match newNamedX ty es (.hash (hashStr (sortEntries es))) with
         | .ok o => "obj" :: runActs env (objs ++ [some o]) as
         | .error c => c.toString :: runActs env (objs ++ [none]) as
     | .get o n =>
       (match (objs[o]?).join with
       | none => "noobj"
       | some ob =>
-        match get ob n with
+        match get ob.obj n with
         | .ok (some v) => "(some " ++ valStr v ++ ")"
         | .ok none => "none"
         | .error c => c.toString) :: runActs env objs as
     | .inithash o =>
       (match (objs[o]?).join with
       | none => "noobj"
-      | some ob => hashStr (initHash ob)) :: runActs env objs as
+      | some ob => hashStr (initHash ob.obj)) :: runActs env objs as
     | .eq o o' =>
       (match (objs[o]?).join, (objs[o']?).join with
-      | some a, some b => resB (equals a b)
+      | some a, some b => resB (equalsX a b)
       | _, _ => "noobj") :: runActs env objs as
     | .inst t o =>
       (match (objs[o]?).join, env[t]? with
-      | some ob, some ty => boolStr (isInstance ty ob)
+      | some ob, some ty => boolStr (isInstanceX ty ob)
       | _, _ => "noobj") :: runActs env objs as
 
 /-- the definitions the accepted types print as (`objectType.InitHash()`), in order -/
